@@ -3,12 +3,17 @@
    Model: C11/Model.v (extend / contract of quill/src/action/extend_inner_class_names.rs),
    specification vocabulary (Ext, Broken, ext_rel, contract_rel): C11/Theory.v, C11/Theory2.v. *)
 From FB Require Import C11.Model C11.Theory C11.Theory2.
+From FB Require Props.C18.
 
 (* Extension: the result has the same namespaces and comment; class by class (same order) the
    same comment, fields and methods; in each names row every cell except [ns] is unchanged and
    the cell [ns], when present, becomes the extended name [Ext]: the name itself for a class
    whose source name is not nested, otherwise (extended name of the outer class) $ name,
-   recursively.  The first namespace can only be asked for when there is no class. *)
+   recursively.  Last clause: IF asking for the first namespace succeeds at all, then there is no
+   class (so nothing could have been rewritten).  The property only speaks of a target namespace
+   at a non-first index: whether extend(<first namespace>) on a set WITHOUT classes succeeds
+   (the code at present: Ok, unchanged) or is refused like `contract` refuses it is unspecified;
+   this theorem does not demand success there and the harness oracle accepts both. *)
 Theorem C11_extend_spec : forall M name M',
   extend M name = Ok M' ->
   exists ns, ns_index (ms_ns M) name = Some ns /\ ext_rel M ns M' /\ (ms_classes M <> [] -> ns <> O).
@@ -62,9 +67,21 @@ Theorem C11_contract_extend : forall M name ns M',
 Proof. exact contract_extend. Qed.
 Print Assumptions C11_contract_extend.
 
-(* Extension fails exactly when: the namespace is unknown; it is the first one (and there is a
-   class); or a class that has a name in ns has an outer class (at any depth) that is not in the
-   set or has no name in ns. *)
+(* The property's failure clause, on the property's domain (target namespace at a non-first index):
+   extension fails exactly when a class that has a name in ns has an outer class (at any depth)
+   that is not in the set or has no name in ns.  Says nothing about the first namespace. *)
+Theorem C11_extend_err_iff_nonfirst : forall M name ns,
+  wf M = true -> ns_index (ms_ns M) name = Some ns -> ns <> O ->
+  (extend M name = Err <->
+   exists c src b, In c (ms_classes M) /\ class_key c = Some src /\
+     nth_name (c_names c) ns = Some b /\ Broken (ms_classes M) ns src).
+Proof. exact extend_err_nonfirst. Qed.
+Print Assumptions C11_extend_err_iff_nonfirst.
+
+(* The same for every namespace name, FOLLOWING THE CODE outside the property's domain: extension
+   also fails when the namespace is unknown or when it is the first one and there is a class; the
+   right-to-left reading for "first namespace, no class" (= success) is behaviour of the present
+   code (no early bail in `extend`), modelled, not a promise of the property. *)
 Theorem C11_extend_err_iff : forall M name,
   wf M = true ->
   (extend M name = Err <->
@@ -105,6 +122,17 @@ Theorem C11_contract_preserves_wf : forall M ns,
   map class_key (ms_classes (contract_idx M ns)) = map class_key (ms_classes M).
 Proof. exact contract_idx_wf. Qed.
 Print Assumptions C11_contract_preserves_wf.
+
+(* The helpers named by the property's observe_at — get_inner_class_parent / get_inner_class_name
+   (split_inner) and from_inner_class (join_inner) — are inverse to each other: C18's theorems,
+   pinned here for the constants C11's model uses (C11/Model.v re-exports C18/Model.v). *)
+Theorem C11_split_join : forall p i, FB.C18.Theory.inner_ok p i -> split_inner (join_inner p i) = Some (p, i).
+Proof. exact FB.Props.C18.C18_split_join. Qed.
+Print Assumptions C11_split_join.
+
+Theorem C11_join_split : forall s p i, split_inner s = Some (p, i) -> join_inner p i = s /\ FB.C18.Theory.inner_ok p i.
+Proof. exact FB.Props.C18.C18_join_split. Qed.
+Print Assumptions C11_join_split.
 
 (* non-vacuity (the repository's fixture plus a depth-4 chain satisfies every hypothesis and is
    really rewritten), the failure cases, and necessity of simple_names for the inverse law *)
